@@ -186,6 +186,18 @@ def run(rep: Report) -> None:
                       "after the first read are invisible to to_function", key=f"cached-typestate|{name}")
     rep.floor("network properties reading element typestate", nprops, 4)
 
+    # ---------- (c'') initialising again creates new variables (so that next states computed
+    # from the old ones mention symbols that are no longer arguments, which CasADi rejects)
+    from .common import require_no_errors, wire_results
+
+    cks = [ck for ck in wire_results(rep, "flags", impls=("casadi",)) if ck.cfg.history]
+    if require_no_errors(rep, cks):
+        for ck in cks:
+            ev = [e for p in ck.paths for e in p.events if e[0] in ("var-not-fresh", "memoised")]
+            rep.check(not ev, "reinitialisation-creates-new-variables", ck.cfg.label(),
+                      ev[0][1] if ev else "init_vars", ev[0][2] if ev else "", key=f"refresh|{ev[0][0] if ev else ''}")
+        rep.floor("re-initialisation scenarios", len(cks), 4)
+
     # ------------------------------------------------ (d) free symbols rejected
     net = CP.build_network(prog, "SX")
     CP.set_opaque_states(net)
